@@ -417,6 +417,15 @@ def c20(res, rng, tier):
             continue
         if o.startswith("CRASHED") and "DATA RACE" not in o and i > 0 and out[i - 1].startswith("CRASHED"):
             continue          # lines after the one that stopped the process
+        if o.startswith("CRASHED") and "DATA RACE" not in o and "rc=66" not in o:
+            # a runtime crash without a race report (resource exhaustion under a loaded machine has
+            # been seen once): run the case again on its own; only a repeatable failure counts
+            again = [C.run_lines(exe, [lines[i]], shards=1, ulimit_stack=False, env=env, extra_args=["-timeout", "300s"])[0] for _ in range(2)]
+            if all(a in ("ok", "skip") for a in again):
+                res.notes.append("one case crashed the race-enabled process without a race report and passed twice when re-run alone: %s" % lines[i][:120])
+                nontriv += 1
+                continue
+            o = again[0] if again[0] not in ("ok", "skip") else again[1]
         what = ("data race reported by the Go race detector" if "DATA RACE" in o or "rc=66" in o
                 else "concurrent results differ from the sequential ones: " + o[:200])
         res.violation(what, {"kind": "impl", "case": lines[i][:800], "observed": o[:1200],
